@@ -138,6 +138,11 @@ def run_case(case):
     vmin, vmax = pts[0], pts[-1]
     width = vmax - vmin
     dv = width / (nv - 1)
+    # another operator of the same process on a space of the same size, degree and domain with other interior knots, built (and used
+    # once) first: the operator under test is never the first of its size class
+    bs_sib = ops.mkspace(nv, case['domain'][0], case['domain'][1], deg, False, False, [1, 1.5] if warp is None else None)
+    adv_sib = VParallelAdvection([None, None, None, np.asarray(bs_sib.greville, dtype=float)], bs_sib, c, edge=edge)
+    adv_sib.step(np.cos(pts), 0.1, 0.3, 0.1)
     adv = VParallelAdvection([None, None, None, pts], bs, c, edge=edge)
     datas = [('e%d' % k, np.eye(nv)[k]) for k in range(nv)] + [('zero', np.zeros(nv)), ('dense', np.cos(pts) + 0.1 * pts ** 2), ('tiny', 1e-20 * (np.cos(pts) + 0.1 * pts ** 2))]
     evals = nontriv = skipped = 0
